@@ -200,7 +200,9 @@ def xmlSafe(value: str | None) -> str:
     """
     if value is None:
         return ""
-    return value.replace('&', '&amp;')
+    for char, entity in (('&', '&amp;'), ('<', '&lt;'), ('>', '&gt;'), ('"', '&quot;')):
+        value = value.replace(char, entity)
+    return value
 
 @custom_tags.app_template_filter()
 def sortedAttributes(value):
